@@ -35,6 +35,14 @@ theorem giveUp_sender (r : Nat) : ev (envG r 1) Generated.ch_giveUp = .bool (dec
 theorem giveUp_receiver (r : Nat) : ev (envG r (-1)) Generated.ch_giveUp = .bool false := by
   rw [giveUp_good]; simp
 
+/-- replacement of a stream: `reconnect` runs `cancelPendingMsgs(true)` under the write lock, after the
+    "already up" test and before it creates the new stream (`replaceStream` in `sRcDo` / `rRcDo`; Chan:
+    `replaceCancel`); `sendMsg` marks a request as written before it hands it to the stream, and
+    `cancelPendingMsgs(true)` skips the requests that are not marked (`Chan.cancelWritten`) -/
+theorem replacement_good :
+    Generated.ch_replaceCancels = true ∧ Generated.ch_markBeforeSend = true ∧ Generated.ch_cancelSkipsUnwritten = true := by
+  decide
+
 end GorumsV.Tie.C09
 
 section Audit
@@ -60,4 +68,13 @@ open GorumsV.Tie.C09 GorumsV.C09
 #print axioms closed_stuck_means_exited
 #print axioms closed_no_stream
 #print axioms sender_exit_leaves_no_request
+#print axioms GorumsV.Tie.C09.replacement_good
+#print axioms lost_is_cancelled
+#print axioms lost_means_dead
+#print axioms parked_means_nothing_lost
+#print axioms replacement_answers_lost
+#print axioms pinned_leak_reachable
+#print axioms leak_trace_repaired
+#print axioms backpressure_is_stuck_for_sender
+#print axioms backpressure_is_stuck
 end Audit
